@@ -447,6 +447,10 @@ def _work(args):
                                eps_list=opts.get('eps', (0, 0.25, 0.5)))
             if 'C01' in props or 'C07' in props:
                 check_discovery(b, family, values, df, col, w, tmpdir, props)
+            if 'C06' in props and col.ttype in ('int', 'real', 'bool', 'string', 'date'):
+                import random as _r
+                check_detection(b, family, values, df, col, w, tmpdir,
+                                _r.Random(repr((family, values, opts.get('seed', 0)))))
     finally:
         shutil.rmtree(tmpdir, ignore_errors=True)
     return (b.evaluations, b.distinct, b.samples, b.failures, b.contracts)
@@ -467,7 +471,7 @@ def run(props, tier, seed, families=None):
             cs += list(F.random_cases(fam, 12, (5, 26), seed))
         n = max(1, len(cs) // 8)
         for i in range(0, len(cs), n):
-            jobs.append((fam, cs[i:i + n], tuple(props), {}))
+            jobs.append((fam, cs[i:i + n], tuple(props), {'seed': seed}))
     total = Bounded(
         'single-column frames: every sequence of <= %d cells from the family pool (+null) for %d column '
         'families, plus seeded longer columns (up to 30 rows, incl. > 20 categories); for C02 every '
@@ -486,3 +490,298 @@ def run(props, tier, seed, families=None):
                 total.contracts[k2] = total.contracts.get(k2, 0) + v
     total.samples = total.samples[:8]
     return total
+
+
+# ---------------------------------------------------------------------------
+# C06: record-level detection semantics on the real pandas code
+# ---------------------------------------------------------------------------
+
+def record_ok(kind, x, value, precision, eps, col):
+    """Documented meaning for one NON-NULL record value x (True = satisfies)."""
+    if kind == 'min':
+        if precision == 'closed' or isinstance(value, datetime.datetime):
+            return x >= value
+        if precision == 'open':
+            return x > value
+        return x >= value - eps * abs(value)
+    if kind == 'max':
+        if precision == 'closed' or isinstance(value, datetime.datetime):
+            return x <= value
+        if precision == 'open':
+            return x < value
+        return x <= value + eps * abs(value)
+    if kind == 'sign':
+        return {'positive': x > 0, 'non-negative': x >= 0, 'zero': x == 0,
+                'non-positive': x <= 0, 'negative': x < 0}[value]
+    if kind == 'min_length':
+        return len(x) >= value
+    if kind == 'max_length':
+        return len(x) <= value
+    if kind == 'allowed_values':
+        return x in value
+    if kind == 'rex':
+        return SPEC['rex_match'](value, x)
+    if kind == 'no_duplicates':
+        return sum(1 for y in col.nonnull if y == x) <= 1
+    raise KeyError(kind)
+
+
+def violated_constraints(col):
+    """(kind, dict-form value, value, precision) candidates that at least one record violates."""
+    out = []
+    nn = col.nonnull
+    if col.ttype in ('int', 'real', 'bool') and nn:
+        xs = sorted(float(x) if col.ttype == 'real' else int(x) for x in nn)
+        for prec in (None, 'open', 'closed'):
+            for b in {xs[0] + 1, xs[-1], xs[0]}:
+                v = {'value': b, 'precision': prec} if prec else b
+                out.append(('min', v, b, prec))
+            for b in {xs[-1] - 1, xs[0], xs[-1]}:
+                v = {'value': b, 'precision': prec} if prec else b
+                out.append(('max', v, b, prec))
+        for s in ('positive', 'non-negative', 'zero', 'non-positive', 'negative'):
+            out.append(('sign', s, s, None))
+    if col.ttype == 'date' and nn:
+        xs = sorted(_naive(x) for x in nn)
+        one = datetime.timedelta(seconds=1)
+        out.append(('min', str(xs[0] + one), xs[0] + one, None))
+        out.append(('max', str(xs[-1] - one), xs[-1] - one, None))
+        out.append(('min', str(xs[-1]), xs[-1], None))
+    if col.ttype == 'string' and nn:
+        lens = sorted(len(x) for x in nn)
+        out.append(('min_length', lens[0] + 1, lens[0] + 1, None))
+        out.append(('max_length', lens[-1] - 1, lens[-1] - 1, None))
+        out.append(('min_length', lens[-1], lens[-1], None))
+        present = sorted(set(nn))
+        out.append(('allowed_values', present[:-1], present[:-1], None))
+        out.append(('allowed_values', ['zz'], ['zz'], None))
+        out.append(('rex', ['^a+$'], ['^a+$'], None))
+        out.append(('rex', ['^$'], ['^$'], None))
+    out.append(('no_duplicates', True, True, None))
+    out.append(('max_nulls', 0, 0, None))
+    if col.n0 > 1:
+        out.append(('max_nulls', col.n0 - 1, col.n0 - 1, None))
+    # a wrong type that does not make repair_field_types rewrite the column
+    wrong = 'date' if col.ttype not in ('date',) else 'real'
+    out.append(('type', wrong, wrong, None))
+    return out
+
+
+SUFFIX = {'type': 'type', 'min': 'min', 'min_length': 'min_length', 'max': 'max',
+          'max_length': 'max_length', 'sign': 'sign', 'max_nulls': 'nonnull',
+          'no_duplicates': 'nodups', 'allowed_values': 'values', 'rex': 'rex'}
+
+
+def _isnullcell(v):
+    return F.norm(v) is None
+
+
+def check_detection(b, family, values, df, col, w, tmpdir, rnd):
+    from tdda.constraints import verify_df, detect_df
+    cands = violated_constraints(col)
+    # single-kind runs + one combined run
+    combos = [[c] for c in cands]
+    seen = {}
+    for c in cands:
+        seen.setdefault(c[0], c)
+    if len(seen) > 1:
+        combos.append([c for c in seen.values() if c[0] != 'type'])
+    ttd = {'int': 'int', 'real': 'real', 'bool': 'bool', 'string': 'string', 'date': 'date'}[col.ttype]
+    # repair (the default) with a constraint type the column does not have
+    if col.ttype in ('int', 'real') and col.nn and family != 'float64x':
+        for wrongt in ('string', 'bool'):
+            d_in = df.copy()
+            before = d_in.copy()
+            w0 = dict(w, constraints=json.dumps({'type': wrongt}), repair=True)
+            b.case(('detect-repair', family, values, wrongt))
+            with quiet():
+                ok, r = b.guarded('C06.detect_df.repair.noraise',
+                                  lambda: detect_df(d_in, {'fields': {'c': {'type': wrongt}}}), w0)
+            if ok:
+                same = (all(_cells_equal(d_in[cn].tolist(), before[cn].tolist()) for cn in before)
+                        and all(str(d_in[cn].dtype) == str(before[cn].dtype) for cn in before))
+                b.check('C06.input-frame-unchanged.repair', same, w0,
+                        'dtype %s -> %s' % (dict(before.dtypes.astype(str)), dict(d_in.dtypes.astype(str))))
+    for combo in combos:
+        fieldc = {}
+        for kind, dv, v, prec in combo:
+            fieldc[kind] = dv
+        if 'type' not in fieldc:
+            fieldc['type'] = ttd
+        cons = {'fields': {'c': fieldc}}
+        w1 = dict(w, constraints=json.dumps(fieldc, default=repr))
+        b.case(('detect', family, values, json.dumps(fieldc, default=repr, sort_keys=True)))
+        df_v = df.copy()
+        with quiet():
+            okv, v = b.guarded('C06.verify_df.noraise', lambda: verify_df(df_v, cons), w1)
+        df_in = df.copy()
+        before = df_in.copy()
+        with quiet():
+            okd, dres = b.guarded('C06.detect_df.noraise',
+                                  lambda: detect_df(df_in, cons, per_constraint=True, write_all=True,
+                                                    output_fields=[]), w1)
+        if not (okv and okd):
+            continue
+        b.check('C06.verdicts-equal-verify', dict(v.fields['c']) == dict(dres.fields['c'])
+                and v.failures == dres.failures and v.passes == dres.passes, w1,
+                'verify %r detect %r' % (dict(v.fields['c']), dict(dres.fields['c'])))
+        same = (list(df_in) == list(before) and len(df_in) == len(before)
+                and all(_cells_equal(df_in[cn].tolist(), before[cn].tolist()) for cn in before)
+                and all(str(df_in[cn].dtype) == str(before[cn].dtype) for cn in before))
+        b.check('C06.input-frame-unchanged', same, w1,
+                'dtype/content changed: %s -> %s' % (dict(before.dtypes.astype(str)), dict(df_in.dtypes.astype(str))))
+        if dres.failures == 0:
+            b.check('C06.no-detection-without-failure', dres.detection is None
+                    or dres.detection.n_failing_records == 0, w1)
+            continue
+        det = dres.detected()
+        if det is None:
+            b.check('C06.detected-frame-present', False, w1, 'failures=%d but no detection frame' % dres.failures)
+            continue
+        b.check('C06.write_all-has-every-record', len(det) == len(df), w1, 'len %d vs %d' % (len(det), len(df)))
+        if len(det) != len(df):
+            continue
+        flagcols = [cn for cn in det if cn.endswith('_ok')]
+        nfalse = [0] * len(df)
+        skipped = False
+        for kind, sat in dres.fields['c'].items():
+            name = 'c_%s_ok' % SUFFIX[kind]
+            if sat is None or bool(sat):
+                b.check('C06.no-flag-column-for-passing-constraint', name not in det, w1, name)
+                continue
+            if kind in ('min_length', 'max_length', 'rex') and col.ttype != 'string':
+                continue
+            if name not in det:
+                b.check('C06.flag-column-present', False, dict(w1, kind=kind), '%s missing from %s' % (name, list(det)))
+                continue
+            flags = det[name].tolist()
+            spec = [x for x in combo if x[0] == kind]
+            for i, (cell, flag) in enumerate(zip(col.values, flags)):
+                isfalse = (flag is False) or (isinstance(flag, (bool, np.bool_)) and not bool(flag)) or flag == 0 and not _isnullcell(flag)
+                if _isnullcell(flag):
+                    isfalse = False
+                if kind == 'type':
+                    want_false = True
+                elif kind == 'max_nulls':
+                    want_false = cell is None
+                elif cell is None:
+                    want_false = False
+                elif spec:
+                    _, dv, val, prec = spec[0]
+                    if isinstance(val, float) and not math.isfinite(val):
+                        skipped = True
+                        continue        # FP-REAL: non-finite bound, not judged
+                    try:
+                        x = _naive(cell) if (col.ttype == 'date' and kind != 'no_duplicates') else cell
+                        want_false = not record_ok(kind, x, val, SPEC['eff_precision'](prec) if kind in ('min', 'max') else prec, 0, col)
+                    except TypeError:
+                        continue
+                else:
+                    continue
+                if isfalse:
+                    nfalse[i] += 1
+                b.check('C06.record-flag.%s' % kind, isfalse == want_false, dict(w1, kind=kind, row=i),
+                        'row %d value %r flag %r, documented meaning violated=%r' % (i, cell, flag, want_false))
+        if 'n_failures' in det:
+            nf = det['n_failures'].tolist()
+            only_checked = all((k not in ('min_length', 'max_length', 'rex') or col.ttype == 'string')
+                               for k, s in dres.fields['c'].items() if s is False)
+            if only_checked and not skipped:
+                b.check('C06.n_failures-equals-false-flags', [int(x) for x in nf] == nfalse, w1,
+                        'n_failures %r, false flags %r' % (nf, nfalse))
+            npass, nfailr = dres.detection.n_passing_records, dres.detection.n_failing_records
+            b.check('C06.record-counts-partition', npass + nfailr == len(df)
+                    and nfailr == sum(1 for x in nf if x > 0), w1,
+                    'passing %r failing %r rows %d' % (npass, nfailr, len(df)))
+        # option variants on the same constraints (one random variant per case)
+        opt = rnd.choice(OPTION_VARIANTS)
+        check_detect_options(b, df, cons, dres, w1, tmpdir, opt)
+
+
+OPTION_VARIANTS = [
+    dict(), dict(per_constraint=True), dict(write_all=True), dict(output_fields=['c']),
+    dict(index=True), dict(in_place=True), dict(interleave=True, per_constraint=True, output_fields=[]),
+    dict(boolean_ints=True, per_constraint=True),
+    dict(fmt='csv'), dict(fmt='csv', stale=True), dict(fmt='parquet'), dict(fmt='parquet', stale=True),
+    dict(fmt='csv', write_all=True, per_constraint=True), dict(fmt='csv', boolean_ints=True, per_constraint=True),
+    dict(fmt='csv', pass_only=True), dict(fmt='csv', pass_only=True, stale=True),
+    dict(fmt='parquet', pass_only=True, stale=True),
+]
+
+
+def _cells_equal(a, b):
+    if len(a) != len(b):
+        return False
+    for x, y in zip(a, b):
+        nx, ny = F.norm(x), F.norm(y)
+        if nx is None or ny is None:
+            if nx is not ny:
+                return False
+        elif not (nx == ny):
+            return False
+    return True
+
+
+def check_detect_options(b, df, cons, base, w, tmpdir, opt):
+    from tdda.constraints import detect_df
+    opt = dict(opt)
+    fmt = opt.pop('fmt', None)
+    stale = opt.pop('stale', False)
+    pass_only = opt.pop('pass_only', False)
+    w2 = dict(w, options=json.dumps(dict(opt, fmt=fmt, stale=stale, pass_only=pass_only)))
+    if pass_only:
+        # constraints nothing violates: the field's own type only
+        cons = {'fields': {'c': {'type': cons['fields']['c'].get('type')
+                                 if base.fields['c'].get('type') is not False else None}}}
+        if cons['fields']['c']['type'] is None:
+            cons = {'fields': {'c': {'max_nulls': len(df)}}}
+    outpath = None
+    if fmt:
+        outpath = os.path.join(tmpdir, 'out.%s' % fmt)
+        if os.path.exists(outpath):
+            os.unlink(outpath)
+        if stale:
+            with open(outpath, 'w') as fh:
+                fh.write('stale,content\n1,2\n')
+    d_in = df.copy()
+    before = d_in.copy()
+    kw = dict(opt)
+    if outpath:
+        kw['outpath'] = outpath
+    b.case(('detect-options', w2['options'], w.get('family'), tuple(w.get('values', ())), w.get('constraints')))
+    with quiet():
+        ok, r = b.guarded('C06.detect_df.options.noraise', lambda: detect_df(d_in, cons, **kw), w2)
+    if not ok:
+        return
+    nfail_c = r.failures
+    det = r.detected()
+    if outpath:
+        exists = os.path.exists(outpath)
+        b.check('C06.output-file-only-if-failures', exists == (nfail_c > 0), w2,
+                'file exists=%r, failing constraints=%d' % (exists, nfail_c))
+        if exists:
+            try:
+                out = pd.read_csv(outpath) if fmt == 'csv' else pd.read_parquet(outpath)
+                want = len(df) if opt.get('write_all') else r.detection.n_failing_records
+                b.check('C06.output-file-holds-failing-records', len(out) == want, w2,
+                        'file rows %d, expected %d' % (len(out), want))
+            except Exception as e:
+                b.check('C06.output-file-readable', False, w2, repr(e)[:200])
+            os.unlink(outpath)
+    if nfail_c > 0 and det is not None and r.detection is not None:
+        want = len(df) if opt.get('write_all') else r.detection.n_failing_records
+        b.check('C06.detected-holds-failing-records', len(det) == want, w2,
+                'frame rows %d expected %d' % (len(det), want))
+        b.check('C06.record-counts-partition',
+                r.detection.n_passing_records + r.detection.n_failing_records == len(df), w2)
+    if not opt.get('in_place'):
+        same = (list(d_in) == list(before)
+                and all(_cells_equal(d_in[cn].tolist(), before[cn].tolist()) for cn in before)
+                and all(str(d_in[cn].dtype) == str(before[cn].dtype) for cn in before))
+        b.check('C06.input-frame-unchanged', same, w2,
+                'columns %s -> %s, dtypes %s -> %s' % (list(before), list(d_in),
+                                                       dict(before.dtypes.astype(str)), dict(d_in.dtypes.astype(str))))
+    else:
+        b.check('C06.in_place-adds-columns-only',
+                all(cn in d_in for cn in before) and all(
+                    _cells_equal(d_in[cn].tolist(), before[cn].tolist()) for cn in before), w2)
